@@ -303,9 +303,11 @@ class IMAPClientProxy:
                     #
                     logger.debug("*** Bad command! '%s'", imap_msg)
                     if imap_cmd.tag is not None:
-                        await self.push(f"{imap_cmd.tag} BAD {e}\r\n")
+                        await self.push(
+                            f"{imap_cmd.tag} BAD {' '.join(str(e).split())}\r\n"
+                        )
                     else:
-                        await self.push(f"* BAD {e}\r\n")
+                        await self.push(f"* BAD {' '.join(str(e).split())}\r\n")
 
                     # The client was told about its mistake. This is no
                     # reason to drop the connection (and without a BYE.)
